@@ -141,6 +141,10 @@ def slice_prog_budget(ctx):
     """C01: each program first at a large budget to learn its need K, then at N in {1,2,K-1,K,K+1,K+2, default}"""
     N = 30000 if big(ctx) else 2500
     base, srcs, kinds = _prog_cases(ctx, 'budget', N, budget=100000, rand_ok=True)
+    # programs that call lambdas supplied through ast_names (their body evaluations must be charged to the same budget)
+    extra = gens2.scope_cases(ctx['seed'], N // 3)
+    base += [c[0].replace('(budget 3000)', '(budget 100000)') for c in extra]
+    srcs += ['[ast_names] ' + c[1] for c in extra]
     io0 = corr.run_impl(base)
     lines, descr = [], []
     for l, s, a in zip(base, srcs, io0):
